@@ -33,6 +33,7 @@ inductive Prim where
   | stop | subFn | subDet | destroy
   | wait (f : Nat)   -- block (user-level, e.g. on another job's future) until event `f` has been signalled
   | set (f : Nat)    -- signal event `f`
+  | stopB | destroyB -- `stop()` / delete of the *other* pool instance B (see `Cfg.hasB`)
   | react            -- not an action of the body: when the job is *cancelled*, whoever observes it (the coroutine's handler,
                      -- the closure's destructor, the future's watcher) calls back into the pool (`is_stopped()`)
   deriving DecidableEq, Repr, Inhabited
@@ -44,6 +45,8 @@ inductive Act where
   | wait (f : Nat)
   | set (f : Nat)
   | nop
+  | stopB
+  | destroyB
   deriving DecidableEq, Repr, Inhabited
 
 def Prim.toAct : Prim → Act
@@ -54,6 +57,8 @@ def Prim.toAct : Prim → Act
   | Prim.wait f => Act.wait f
   | Prim.set f => Act.set f
   | Prim.react => Act.nop
+  | Prim.stopB => Act.stopB
+  | Prim.destroyB => Act.destroyB
 
 structure Cfg where
   nw : Nat                       -- worker threads 0..nw-1
@@ -61,6 +66,9 @@ structure Cfg where
   script : Nat → List Act        -- client scripts
   raOwns : Bool := true          -- run(async) submits a closure that owns the coroutine and the promise (repaired code)
   dtorOutside : Bool := true     -- worker() destroys the closure it ran before re-locking `_mx` (repaired code)
+  hasB : Bool := false           -- there is a second pool instance B with one worker (thread `nw`; clients start at `nw+1`).
+                                 -- Nothing is ever submitted to B; it is only stopped / destroyed, from clients and from A's jobs:
+                                 -- `_current` is ONE thread-local shared by all instances
   cvYield : Bool := false        -- the harness puts a scheduling point at the entry of `_cond.wait` (predicate evaluated,
                                  -- mutex still held, waiter not yet registered); in the model it is a step of its own anyway
 
@@ -130,6 +138,8 @@ inductive Pc where
   | wFlush                        -- body returned: flush the coroutine ready queue of this thread
   | wAfterJob                     -- `if (_current == nullptr) return; lk.lock();`
   | wExit                         -- left the loop through `break`, lock released
+  | bLoop | bCvCheck | bCvBlocked | bExitPc     -- the worker of pool B (its queue is always empty)
+  | bStopCS (isD : Bool) | bStopJoin | bJoinBlocked   -- `B.stop()` / `delete B` by some thread
   | stuck                         -- self-deadlock on `_mx`
   | done
   deriving DecidableEq, Repr, Inhabited
@@ -145,6 +155,8 @@ inductive Ev where
   | cancel (j t : Nat)
   | value (j t : Nat)
   | flagBlock (t f : Nat) | flagSet (f t : Nat)
+  | unlockB (t : Nat) | cvBlockB (t : Nat)
+  | stopBBegin (t : Nat) | stopBEnd (t : Nat) | destroyBBegin (t : Nat) | destroyedB (t : Nat) | destroyBSkip (t : Nat)
   | stopBegin (t : Nat) | stopEnd (t : Nat) | destroyBegin (t : Nat) | destroyed (t : Nat) | destroySkip (t : Nat)
   deriving DecidableEq, Repr, Inhabited
 
@@ -160,6 +172,14 @@ structure State where
   mx : Option Nat := none            -- owner of `_mx` between two steps (only a worker inside its loop head keeps it)
   lockWait : Nat → Bool := fun _ => false   -- the thread found `_mx` taken and is blocked in `lock()`
   flag : Nat → Bool := fun _ => false   -- user-level events (not part of the pool)
+  -- pool B
+  bw : Nat                           -- B's worker thread
+  bExit : Bool := false
+  bWoken : Bool := false
+  bHasThread : Bool                  -- `B._threads` still holds its worker
+  bDestroyed : Bool := false
+  btmp : Nat → Bool := fun _ => false    -- `B.stop()` of this thread has B's worker in its local list
+  bdtor : Nat → Bool := fun _ => false
   -- threads
   pc : Nat → Pc
   todo : Nat → List Act
@@ -200,9 +220,12 @@ theorem upd_apply {α} (f : Nat → α) (i j : Nat) (v : α) : upd f i v j = if 
 def init (c : Cfg) : State :=
   { threads := List.range c.nw,
     awake := List.range c.nw,
+    bw := c.nw,
+    bHasThread := c.hasB,
     cur := fun t => decide (t < c.nw),
-    pc := fun t => if t < c.nw then Pc.wRelock else if t < c.nt then Pc.idle else Pc.done,
-    todo := fun t => if c.nw ≤ t ∧ t < c.nt then c.script t else [],
+    pc := fun t => if t < c.nw then Pc.wRelock else if t < c.nt then (if c.hasB ∧ t = c.nw then Pc.bLoop else Pc.idle)
+                   else Pc.done,
+    todo := fun t => if c.nw ≤ t ∧ t < c.nt ∧ ¬ (c.hasB ∧ t = c.nw) then c.script t else [],
     ret := fun t => if t < c.nw then Ret.body else Ret.script }
 
 def setPc (s : State) (t : Nat) (p : Pc) : State := { s with pc := upd s.pc t p }
@@ -325,6 +348,11 @@ def stepIdle (s : State) (t : Nat) : State × List Ev × Outcome :=
   | Act.set f :: rest =>
       ({ s with todo := upd s.todo t rest, flag := upd s.flag f true }, [Ev.flagSet f t], Outcome.cont)
   | Act.nop :: rest => ({ s with todo := upd s.todo t rest }, [], Outcome.cont)
+  | Act.stopB :: rest =>
+      ({ s with todo := upd s.todo t rest, pc := upd s.pc t (Pc.bStopCS false) }, [Ev.stopBBegin t], Outcome.cont)
+  | Act.destroyB :: rest =>
+      if s.bDestroyed then ({ s with todo := upd s.todo t rest }, [Ev.destroyBSkip t], Outcome.cont)
+      else ({ s with todo := upd s.todo t rest, pc := upd s.pc t (Pc.bStopCS true) }, [Ev.destroyBBegin t], Outcome.cont)
 
 def stepAfterEnq (c : Cfg) (s : State) (t j : Nat) (acc : Bool) : State × List Ev × Outcome :=
   if acc then
@@ -433,6 +461,36 @@ def stepWAfterJob (c : Cfg) (s : State) (t : Nat) : State × List Ev × Outcome 
       ({ s with todo := upd s.todo t [Act.destroy], pc := upd s.pc t Pc.idle }, [], Outcome.cont)
     else stepFin s t
 
+/-! Pool B: one worker, never a submission; only `stop()` / destruction. -/
+
+def stepBLoop (s : State) (t : Nat) : State × List Ev × Outcome :=
+  if s.bExit then (setPc s t Pc.bExitPc, [Ev.unlockB t], Outcome.op)
+  else (setPc s t Pc.bCvCheck, [Ev.unlockB t], Outcome.op)
+
+def stepBCvCheck (s : State) (t : Nat) : State × List Ev × Outcome :=
+  if s.bWoken then (setPc s t Pc.bExitPc, [Ev.unlockB t], Outcome.op)
+  else (setPc s t Pc.bCvBlocked, [Ev.cvBlockB t], Outcome.blocked)
+
+def stepBCvBlocked (s : State) (t : Nat) : State × List Ev × Outcome :=
+  (setPc s t Pc.bExitPc, [Ev.unlockB t], Outcome.op)
+
+/-- the critical section of `B.stop()`; nothing of it concerns pool A or the caller's `_current` -/
+def stepBStopCS (s : State) (t : Nat) (isD : Bool) : State × List Ev × Outcome :=
+  ({ s with bExit := true, bWoken := true, btmp := upd s.btmp t s.bHasThread, bHasThread := false,
+            bdtor := upd s.bdtor t isD, pc := upd s.pc t Pc.bStopJoin }, [Ev.unlockB t], Outcome.op)
+
+def stepBStopJoin (s : State) (t : Nat) : State × List Ev × Outcome :=
+  if s.btmp t then
+    if s.pc s.bw = Pc.done then ({ s with btmp := upd s.btmp t false }, [Ev.join t s.bw], Outcome.op)
+    else (setPc s t Pc.bJoinBlocked, [Ev.joinBlock t s.bw], Outcome.blocked)
+  else
+    if s.bdtor t then
+      ({ s with bDestroyed := true, bdtor := upd s.bdtor t false, pc := upd s.pc t Pc.idle }, [Ev.destroyedB t], Outcome.cont)
+    else (setPc s t Pc.idle, [Ev.stopBEnd t], Outcome.cont)
+
+def stepBJoinBlocked (s : State) (t : Nat) : State × List Ev × Outcome :=
+  ({ s with btmp := upd s.btmp t false, pc := upd s.pc t Pc.bStopJoin }, [Ev.join t s.bw], Outcome.op)
+
 /-- the next thing the thread does is `_mx.lock()` -/
 def Pc.wantsLock : Pc → Bool
   | Pc.enqCS _ | Pc.stopCS _ | Pc.wRelock => true
@@ -457,6 +515,13 @@ def stepPc (c : Cfg) (s : State) (t k : Nat) : State × List Ev × Outcome :=
   | Pc.wFlush => stepWFlush c s t
   | Pc.wAfterJob => stepWAfterJob c s t
   | Pc.wExit => stepFin s t
+  | Pc.bLoop => stepBLoop s t
+  | Pc.bCvCheck => stepBCvCheck s t
+  | Pc.bCvBlocked => stepBCvBlocked s t
+  | Pc.bExitPc => stepFin s t
+  | Pc.bStopCS isD => stepBStopCS s t isD
+  | Pc.bStopJoin => stepBStopJoin s t
+  | Pc.bJoinBlocked => stepBJoinBlocked s t
   | Pc.stuck => (s, [], Outcome.blocked)
   | Pc.done => (s, [], Outcome.finished)
 
@@ -474,6 +539,8 @@ def enabledPc (s : State) (t : Nat) : Bool :=
   | Pc.done => false
   | Pc.stuck => false
   | Pc.wCvBlocked => s.woken t
+  | Pc.bCvBlocked => s.bWoken
+  | Pc.bJoinBlocked => s.pc s.bw == Pc.done
   | Pc.waitFlag f => s.flag f
   | Pc.joinBlocked =>
       match s.tmp t with
